@@ -234,6 +234,47 @@ def check(run, rule):
         r = _rets(prog, p)
         sweep = any(x[0] == "bin" and x[1] == "Eq" and mentions(x, lambda z: z[0] == "param" and "sweep_flag" in z[2]) for x in r)
         ok = len(news) == 1 and [strip(ex.operand(a)) for a in news[0]["args"][:2]] == [("param", 2, ()), ("param", 3, ())] and len(eqs) == 2 and sweep
+        if not ok and not news:
+            # the normalisation written out instead of calling Arc::new: on the path where a > b the arc is compared with
+            # (b, a, sweep = true), otherwise with (a, b, sweep = false); decided path by path on the true-returning paths
+            from .mirlib import paths as _paths
+            ps = _paths(prog, p) or []
+            A, B = ("param", 2, ()), ("param", 3, ())
+            seen_cases = set()
+            okp = bool(ps)
+            for conds, ret in ps:
+                gtv, want = None, {}
+                bad_path = False
+                for c, tk in conds + [(ret, None)]:
+                    c = strip(c)
+                    truth = None if tk is None else ((tk != 0) if not isinstance(tk, tuple) else (0 in tk[1]))
+                    if c[0] == "call" and re.search(r"PartialOrd(<.*>)?>?::gt$", c[1]) and [strip(x) for x in c[2]] == [A, B]:
+                        gtv = truth
+                    elif c[0] == "call" and re.search(r"PartialEq>::eq$", c[1]) and strip(c[2][0])[0] == "param" and strip(c[2][0])[1] == 1 and strip(c[2][0])[2] in (("start",), ("end",)):
+                        if truth in (True, None):
+                            want[strip(c[2][0])[2][0]] = strip(c[2][1])
+                    elif c[0] == "bin" and c[1] == "Eq" and mentions(c, lambda z: z[0] == "param" and z[1] == 1 and z[2] == ("sweep_flag",)):
+                        other = strip(c[3]) if mentions(c[2], lambda z: z[0] == "param" and z[2] == ("sweep_flag",)) else strip(c[2])
+                        if truth in (True, None):
+                            want["sweep"] = other
+                    elif c[0] == "const":
+                        continue
+                    else:
+                        bad_path = True
+                r_ = strip(ret)
+                returns_false = r_[0] == "const" and r_[2] in (0, False)
+                if bad_path or gtv is None:
+                    okp = False
+                    break
+                if returns_false:
+                    continue
+                exp = {"start": B, "end": A} if gtv else {"start": A, "end": B}
+                sw = want.get("sweep")
+                if want.get("start") != exp["start"] or want.get("end") != exp["end"] or not (sw is not None and sw[0] == "const" and int(bool(sw[2])) == int(gtv)):
+                    okp = False
+                    break
+                seen_cases.add(gtv)
+            ok = okp and seen_cases == {True, False}
         good("Arc::arcs_to = same normalised end points and sweep as Arc::new(a, b, _)", p) if ok else bad("Arc::arcs_to", p, "new=%d eq=%d sweep=%s" % (len(news), len(eqs), sweep))
     else:
         bad("Arc::arcs_to", None, "function not found")
@@ -341,6 +382,21 @@ def check(run, rule):
         hasf = lambda e, f: mentions(e, lambda z: z[0] in ("param", "field") and f in z[2])
         okgt = len(gt) == 1 and hasf(ex.operand(gt[0]["args"][0]), "start") and hasf(ex.operand(gt[0]["args"][1]), "end") and \
             not hasf(ex.operand(gt[0]["args"][0]), "end")
+        if not okgt:
+            # any spelling of the test (`if start <= end { return }`): the swap is guarded by exactly one comparison of
+            # start with end whose taken edge means start > end
+            from .common import guards as _g
+            swaps = [(bid, t) for bid, t in prog.calls(s) if Program.callee_name(t).endswith("mem::swap")]
+            if len(swaps) == 1:
+                gs = [(strip(c), tk) for c, tk, sw in _g(prog, s, swaps[0][0])]
+                if len(gs) == 1 and gs[0][0][0] == "call" and re.search(r"PartialOrd(<.*>)?>?::(gt|ge|lt|le)$", gs[0][0][1]):
+                    c, tk = gs[0]
+                    op = c[1].rsplit("::", 1)[-1]
+                    a_start = hasf(c[2][0], "start") and not hasf(c[2][0], "end") and hasf(c[2][1], "end") and not hasf(c[2][1], "start")
+                    a_end = hasf(c[2][0], "end") and not hasf(c[2][0], "start") and hasf(c[2][1], "start") and not hasf(c[2][1], "end")
+                    truth = (tk != 0) if not isinstance(tk, tuple) else (0 in tk[1])
+                    # start > end  <=>  gt(start,end) | !le(start,end) | lt(end,start) | !ge(end,start)
+                    okgt = (a_start and ((op == "gt" and truth) or (op == "le" and not truth))) or (a_end and ((op == "lt" and truth) or (op == "ge" and not truth)))
         good("%s::new swaps end points when start > end" % ty.split("::")[-1], p) if ok and okgt else bad(ty + "::new", p, "normalisation call=%s, `start > end` test=%s" % (ok, okgt))
     # Point order
     p = [q for q in prog.bodies if q.endswith("point::Point as core::cmp::Ord>::cmp")]
@@ -349,6 +405,32 @@ def check(run, rule):
         e = r[0] if len(r) == 1 else ("unknown",)
         ok = e[0] == "call" and e[1].endswith("Ordering::then") and mentions(e[2][0], lambda z: z[0] == "field" and z[2] == ("y",)) and \
             mentions(e[2][1], lambda z: z[0] == "field" and z[2] == ("x",)) and not mentions(e[2][0], lambda z: z[0] == "field" and z[2] == ("x",))
+        if not ok:
+            # the same written as a match on the row comparison: `match P { Equal => S, o => o }` - decided path by path
+            from .mirlib import paths as _paths
+            fld = lambda z, f: mentions(z, lambda y: y[0] == "field" and y[2] == (f,))
+            ps = _paths(prog, p[0]) or []
+            okp = bool(ps)
+            for conds, ret in ps:
+                ret = strip(ret)
+                if len(conds) != 1:
+                    okp = False
+                    break
+                c, tk = strip(conds[0][0]), conds[0][1]
+                P = strip(c[1]) if c[0] == "discr" else None
+                if P is None or P[0] != "call" or not fld(P, "y") or fld(P, "x") or [strip(a)[0] for a in P[2]] and not (mentions(P[2][0], lambda y: y == ("param", 1, ())) and mentions(P[2][1], lambda y: y == ("param", 2, ()))):
+                    okp = False
+                    break
+                if tk == 0:
+                    # rows equal: the column comparison of the same kind, self first
+                    if not (ret[0] == "call" and ret[1] == P[1] and fld(ret, "x") and not fld(ret, "y") and mentions(ret[2][0], lambda y: y == ("param", 1, ())) and mentions(ret[2][1], lambda y: y == ("param", 2, ()))):
+                        okp = False
+                elif isinstance(tk, tuple) and 0 in tk[1] or tk in (1, 255, -1):
+                    if ret != P and not (ret[0] == "agg" and ret[2] in ("Less", "Greater")):
+                        okp = False
+                else:
+                    okp = False
+            ok = okp
         good("Point order = by y, then by x", p[0]) if ok else bad("Point::cmp", p[0], expr_str(e)[:140])
     else:
         bad("Point::cmp", None, "impl not found")
